@@ -160,23 +160,31 @@ def viz_shared_producer_in_container(case, msg, observed=None):
                 return None
             g = nxt["graph"]
         return g
+    def outs(n):
+        if n["kind"] != "graph":
+            return set(n.get("outputs", []))
+        return set().union(*[outs(m) for m in n["graph"]["nodes"]]) if n["graph"]["nodes"] else set()
     for p in probs:
         a, b = p.get("a", "").split("/"), p.get("b", "").split("/")
-        if len(a) < 2 or b[:len(a) - 1] == a[:-1]:
-            return False                      # producer not nested, or consumer inside the producer's own graph
-        lv = level(case["graph"], a[:-1])
-        if lv is None:
+        found = False
+        # the producer is nested; some node on its path (itself or a nested graph holding it) has a sibling at its level that
+        # produces one of the same names, and the consumer is not inside that node
+        if len(a) < 2:
+            return False                      # the producer is not inside any nested graph
+        for d in range(0, len(a)):
+            if b[:d + 1] == a[:d + 1]:
+                continue                      # the consumer sits in the same container as this candidate
+            lv = level(case["graph"], a[:d])
+            if lv is None:
+                break
+            me = next((n for n in lv["nodes"] if n["name"] == a[d]), None)
+            if me is None:
+                break
+            if any(n is not me and outs(me) & outs(n) for n in lv["nodes"]):
+                found = True
+                break
+        if not found:
             return False
-        me = next((n for n in lv["nodes"] if n["name"] == a[-1]), None)
-        if me is None or me["kind"] == "graph":
-            return False
-        mine = set(me.get("outputs", []))
-        def outs(n):
-            if n["kind"] != "graph":
-                return set(n.get("outputs", []))
-            return set().union(*[outs(m) for m in n["graph"]["nodes"]]) if n["graph"]["nodes"] else set()
-        if not any(n is not me and mine & outs(n) for n in lv["nodes"]):
-            return False                      # no other producer (a sibling node, or one inside a sibling graph) of one of its output names
     return True
 
 
